@@ -10,7 +10,8 @@ from .. import gen
 from ..common import REPO, ROOT, Check, case_rng, import_ws, parse_resp, pmap, run_driver
 
 STATS = ["hs", "tm01", "tm02", "dm", "dspr", "tp", "dp", "dpm", "dpspr", "swe", "momd", "oned", "smooth", "interp", "ptm3",
-         "split", "crsd", "gamma", "to_energy", "rotate"]
+         "split", "crsd", "gamma", "to_energy", "rotate", "hrms", "sw", "gw", "goda", "alpha", "fp", "uss", "mss", "stats_band",
+         "scale_by_hs", "smooth5", "ptm5", "bbox", "momf"]
 
 
 def build(freq, dirs, E, kind, name="efth", attrs=None):
@@ -56,6 +57,23 @@ def observe(obj, name, via):
         return canon(sp.split(fmin=float(f[1]), fmax=float(f[-2])))
     if name == "rotate":
         return canon(sp.rotate(45.0))
+    if name == "stats_band":
+        da = obj["efth"] if isinstance(obj, xr.Dataset) else obj
+        f = da.freq.values
+        return canon(sp.stats(["hs", "tm01", "dm"], fmin=float(f[1]), fmax=float(f[-2])))
+    if name == "scale_by_hs":
+        return canon(sp.scale_by_hs("0.5*hs + 0.1"))
+    if name == "smooth5":
+        return canon(sp.smooth(5, 3))
+    if name == "ptm5":
+        da = obj["efth"] if isinstance(obj, xr.Dataset) else obj
+        return canon(sp.partition.ptm5(float(da.freq.values[2]) * 1.01))
+    if name == "bbox":
+        da = obj["efth"] if isinstance(obj, xr.Dataset) else obj
+        f = da.freq.values
+        return canon(sp.partition.bbox([dict(fmin=float(f[0]), fmax=float(f[2]), dmin=0.0, dmax=170.0)]))
+    if name == "momf":
+        return canon(sp.momf(2))
     if name == "gamma":
         return canon(sp.gamma())
     if name == "to_energy":
